@@ -8,11 +8,11 @@ package main
 import (
 	"bytes"
 	"fmt"
-	"strings"
 	"io"
 	"io/ioutil"
 	"net"
 	"os"
+	"strings"
 	"sync"
 	"time"
 
@@ -347,6 +347,7 @@ func runBC(class, want string) (got, detail string, wedge error) {
 		stop()
 	})
 	if !ok {
+		e.hung = true
 		wedge = fmt.Errorf("the blockchain reactor / pool is blocked after the message (lock held)")
 	}
 	if disc {
